@@ -284,7 +284,7 @@ def c_float(x):
     while n % 2 == 0:
         n //= 2
         e += 1
-    return f"(FNum ({n}) ({e}))"
+    return f"(FNum ({n})%Z ({e})%Z)"
 
 
 def c_key(k):
@@ -293,7 +293,7 @@ def c_key(k):
     t = bad_tag_of_key(k)
     if t is None:
         raise ValueError(f"unsupported key {k!r}")
-    return f"(KBad {t})"
+    return f"(KBad {t}%N)"
 
 
 def c_scalar(v):
@@ -304,7 +304,7 @@ def c_scalar(v):
     if v is False:
         return "(SBool false)"
     if isinstance(v, int):
-        return f"(SInt ({v}))"
+        return f"(SInt ({v})%Z)"
     if isinstance(v, float):
         if math.isnan(v) or math.isinf(v):
             raise ValueError("non-finite float")
@@ -314,7 +314,7 @@ def c_scalar(v):
     t = bad_tag_of_value(v)
     if t is None:
         raise ValueError(f"unsupported leaf {v!r} ({type(v).__name__})")
-    return f"(SBad {t})"
+    return f"(SBad {t}%N)"
 
 
 def c_val(v):
@@ -336,7 +336,7 @@ def c_vdict(d):
 
 
 def c_optz(x):
-    return "None" if x is None else f"(Some ({x}))"
+    return "None" if x is None else f"(Some ({x})%Z)"
 
 
 def c_slice(s):
@@ -376,7 +376,7 @@ def c_lop(op):
     if n in ("LLen", "LCall", "LIter", "LReversed", "LReverse", "LClear"):
         return n
     if n in ("LGet", "LDel"):
-        return f"({n} ({op[1]}))"
+        return f"({n} ({op[1]})%Z)"
     if n in ("LGetSlice", "LDelSlice"):
         return f"({n} {c_slice(op[1])})"
     if n in ("LIndex", "LCount", "LContains", "LEq", "LAppend", "LExtend", "LIAdd", "LRemove", "LReset"):
@@ -384,7 +384,7 @@ def c_lop(op):
     if n == "LCmp":
         return f"(LCmp {CMP[op[1]]} {c_val(op[2])})"
     if n in ("LSet", "LInsert"):
-        return f"({n} ({op[1]}) {c_val(op[2])})"
+        return f"({n} ({op[1]})%Z {c_val(op[2])})"
     if n == "LSetSlice":
         return f"(LSetSlice {c_slice(op[1])} {c_val(op[2])})"
     if n == "LPop":
